@@ -40,7 +40,15 @@ RULE = ('Hypothesis: FileSpec (1-5 dims of length 1-5, 1-5 numeric variables '
         'coordinate variable have the function\'s output length, other '
         'dimensions and unlimited flags unchanged; same commuting reducer '
         '(sum/min/max/prod, mean on unmasked data) on >=2 dimensions: '
-        'library results for reversed keyword order agree.  Non-trivial: '
+        'library results for reversed keyword order agree.  ~1/5 of cases go '
+        'through the command-line string forms core._functions.reduce_dim('
+        '"dim,reducer") and convolve_dim("dim,mode,w1,..") on one '
+        'dimension: dimension lengths, values (same tolerances, result dtype '
+        'of reduce_dim not judged) and masks, where a cell that should be '
+        'masked may instead hold the declared fill value (Pseudo2NetCDF '
+        'convention) and convolve_dim on masked data may follow either '
+        'numpy.ma.convolve semantics (mask propagated / masked elements '
+        'excluded).  Non-trivial: '
         'masked variable reduced over an axis that is neither first nor '
         'last, or a length-changing callable, or a variable lacking the '
         'named dimensions present.  Distinct by sha1 of the case spec.')
@@ -98,8 +106,21 @@ def cases(draw, tier='quick'):
         for d in chosen:
             fl.append([d, draw(funcs(dlen[d]))])
     form = 'plain'
-    if draw(st.integers(0, 9)) == 7 and any(fd[0] != 'red' for d, fd in fl):
+    pick = draw(st.integers(0, 19))
+    if pick == 7 and any(fd[0] != 'red' for d, fd in fl):
         form = 'dict'
+    if pick >= 14 and used:
+        # string forms used by the command line: one dimension
+        d = draw(st.sampled_from(used))
+        if not isinstance(fs['gattrs'].get('history', ''), str):
+            # the string forms append to the (textual) history attribute
+            fs['gattrs'].pop('history')
+        if pick in (14, 16, 18):
+            return dict(file=fs, form='plain', entry='reduce_dim',
+                        funcs=[[d, ['red', draw(st.sampled_from(REDUCERS))]]])
+        fd = draw(funcs(dlen[d]).filter(lambda f: f[0] == 'conv'))
+        return dict(file=fs, form='plain', entry='convolve_dim',
+                    funcs=[[d, fd]])
     return dict(file=fs, funcs=fl, form=form)
 
 
@@ -213,7 +234,134 @@ def tolerances(dtype, src, fl):
 
 
 # ------------------------------------------------------------------ check
+def check_string_form(case):
+    """core._functions.reduce_dim / convolve_dim ('dim,func' and
+    'dim,mode,w1,w2,..'): one dimension; result dtype is not judged for
+    reduce_dim (it is numpy's); for convolve_dim the function is the
+    library's own choice, so on masked data the result must follow one of
+    numpy.ma.convolve's two semantics (mask propagated, or masked elements
+    excluded) - data under the mask must not leak into unmasked output."""
+    from PseudoNetCDF.core import _functions as F
+    r = Result()
+    fs = case['file']
+    m = S.model_of(fs)
+    f = S.build_file(fs)
+    d, fd = case['funcs'][0]
+    entry = case['entry']
+    r.label('entry:' + entry, 'f:' + (fd[0] if fd[0] != 'red'
+                                      else 'red:' + fd[1]))
+    n = m.dims[d][0]
+    if entry == 'reduce_dim':
+        arg = '%s,%s' % (d, fd[1])
+        ok, out = guard(r, 'reduce_dim-raises', lambda: F.reduce_dim(f, arg))
+        newlen = 1
+    else:
+        w32 = np.array(fd[2], dtype='f')
+        arg = ','.join([d, fd[1]] + [repr(float(w)) for w in fd[2]])
+        ok, out = guard(r, 'convolve_dim-raises',
+                        lambda: F.convolve_dim(f, arg))
+        newlen = int(np.convolve(w32, np.arange(n), mode=fd[1]).size)
+    touched = [mv for mv in m.vars.values() if d in mv.dims]
+    nt = any(d not in mv.dims for mv in m.vars.values())
+    if nt:
+        r.label('var-lacking-dims')
+    if newlen != n and entry == 'convolve_dim':
+        nt = True
+        r.label('length-changing-callable')
+    for mv in touched:
+        if mv.masked:
+            r.label('masked-touched')
+            i = list(mv.dims).index(d)
+            if 0 < i < len(mv.dims) - 1:
+                nt = True
+                r.label('masked-middle-axis')
+    r.nontrivial = nt
+    if not ok:
+        return r
+    for msg in S.wellformed(out, 'result'):
+        r.fail('result-malformed', msg, klass=entry)
+    if r.failures:
+        return r
+    for dn, (l, u) in m.dims.items():
+        if dn == d and not touched and entry == 'reduce_dim':
+            continue    # legacy form drops a dimension no variable uses
+        if dn not in out.dimensions:
+            r.fail('dims', 'dimension %s missing' % dn, klass=entry)
+            continue
+        want = newlen if dn == d else l
+        if len(out.dimensions[dn]) != want:
+            r.fail('dims', 'dimension %s has length %d, expected %d' % (
+                dn, len(out.dimensions[dn]), want), klass=entry)
+    if r.failures:
+        return r
+    for name, mv in m.vars.items():
+        if name not in out.variables:
+            r.fail('var-names', 'variable %s missing' % name, klass=entry)
+            continue
+        ov = out.variables[name]
+        what = '%s: variable %s%r' % (entry, name, mv.dims)
+        if mv.masked:
+            # these forms copy through Pseudo2NetCDF, which stores masked
+            # cells as the declared fill value (the netCDF convention); a
+            # cell that should be masked may therefore be unmasked and hold
+            # the variable's fill value
+            la = A.plain(ov[...])
+            fv = getattr(ov, 'fill_value', getattr(ov, '_FillValue', None))
+            if fv is not None and np.shape(la) == np.shape(mv.data):
+                asfill = np.ma.getmaskarray(mv.data) & (
+                    np.asarray(np.ma.getdata(la)) == fv)
+                if (asfill & ~np.ma.getmaskarray(la)).any():
+                    r.label('masked-cells-stored-as-fill')
+                ov = np.ma.MaskedArray(np.asarray(np.ma.getdata(la)),
+                                       mask=np.ma.getmaskarray(la) | asfill)
+        if d not in mv.dims:
+            msg = S.cmp_array(ov, mv.data, 'untouched ' + what, bits=True)
+            if msg:
+                r.fail('untouched-data', msg, klass=entry)
+            continue
+        ax = list(mv.dims).index(d)
+        tol = tolerances(np.float32 if mv.data.dtype.kind != 'f'
+                         else mv.data.dtype, mv.data, [[d, fd]])
+        cands = []
+        with np.errstate(all='ignore'):
+            if entry == 'reduce_dim':
+                cands.append(model_step(mv.data, ax, fd))
+            elif mv.masked:
+                for prop in (True, False):
+                    cands.append(apply_1d(mv.data, ax, lambda x: np.ma.convolve(
+                        w32, x, mode=fd[1], propagate_mask=prop)))
+            else:
+                cands.append(apply_1d(mv.data, ax, lambda x: np.convolve(
+                    w32, x, mode=fd[1])))
+        first = None
+        for exp in cands:
+            if entry == 'convolve_dim':
+                exp, comparable = cast_to(exp, mv.data.dtype)
+                if not comparable:
+                    continue
+            intres = np.ma.getdata(exp).dtype.kind in 'iu'
+            msg = S.cmp_array(ov, exp, what, check_dtype=False,
+                              **(dict(bits=True) if intres and
+                                 np.asarray(np.ma.getdata(
+                                     ov[...])).dtype.kind in 'iu'
+                                 else dict(bits=False, rtol=tol[0],
+                                           atol=tol[1])))
+            if not msg:
+                first = None
+                break
+            if first is None:
+                first = msg
+        if first:
+            clause = 'string-form-mask' if 'mask differs' in first \
+                else 'string-form-values'
+            r.fail(clause, first, klass=entry + '/' +
+                   ('masked' if mv.masked else 'plain'))
+    return r
+
+
 def check_case(case):
+    if case.get('entry', 'method') != 'method':
+        return check_string_form(case)
     r = Result()
     fs = case['file']
     m = S.model_of(fs)
@@ -240,7 +388,7 @@ def check_case(case):
         return kw
 
     # ---- labels / non-triviality
-    r.label('form:' + form, 'ndims:%d' % len(fl))
+    r.label('entry:method', 'form:' + form, 'ndims:%d' % len(fl))
     kinds = [fd[0] if fd[0] != 'red' else 'red:' + fd[1] for d, fd in fl]
     r.label(*['f:' + k for k in kinds])
     nt = False
@@ -397,3 +545,7 @@ known.register('C03-dictform-typeerror',
                lambda spec, f: spec.get('form') == 'dict' and
                f.clause == 'apply-raises' and f.where.startswith(
                    'TypeError@core/_files.py:applyAlongDimensions'))
+known.register('C03-convolve_dim-masked-data',
+               lambda spec, f: spec.get('entry') == 'convolve_dim' and
+               f.clause in ('string-form-mask', 'string-form-values') and
+               f.klass == 'convolve_dim/masked')
